@@ -683,4 +683,90 @@ w("namespaces/merged.tsx", hdr + "\n".join([
 # the next transform starts; own option set only (17 000 elements per execution)
 w("many/tags-17000.jsx", "\n".join([f"const t{i} = <cust-t{i} a={{x}}>{{k}}</cust-t{i}>;" for i in range(17000)]), '{"optimize":true,"customElementPatterns":["^cust-t1","^x-"]}')
 open(os.path.join(root, "many/tags-17000.only-own"), "w").write("")
+
+# ---- Q. fixed counterparts of what only the generator had found (S34, S40, S43, S44, S62): a finding that depends on
+# where the generator's PRNG stream happens to go is not a stable detector
+# Q1 (S40, S62) pending temporaries x the kind of function nested in the next expression x what that function
+# contains x how many temporaries the outer expression still needs afterwards; one module per combination
+pend = {1: "const p1 = <A>{t(1)}</A>;", 2: "const p1 = <A>{t(1)}</A>;\nconst p2 = <B>{t(2)}</B>;", 3: "const p1 = <A>{t(1)}</A>, p2 = <B>{t(2)}</B>, p3 = <C>{t(3)}</C>;"}
+inner = {"none": "return 1;", "expr-arrow": "return items.map((i) => i.id);", "expr-arrow-slot": "return items.map((i) => <I>{f(i)}</I>);", "block-arrow-slot": "return items.map((i) => { return <I>{f(i)}</I>; });", "two-slots": "const a = <I>{f(1)}</I>; return [a, <J>{f(2)}</J>];"}
+def container(kind, body):
+    return {"expr-arrow": f"() => wrap(() => {{ {body} }})", "block-arrow": f"() => {{ {body} }}", "fn-expr": f"function () {{ {body} }}", "method": f"{{ m() {{ {body} }} }}", "getter": f"{{ get g() {{ {body} }} }}", "class": f"class {{ m() {{ {body} }} }}"}[kind]
+after = {0: "", 1: ", <Z>{t(9)}</Z>", 2: ", <Y>{t(8)}</Y>, <Z>{t(9)}</Z>"}
+for pn, ptxt in pend.items():
+    for ck in ["expr-arrow", "block-arrow", "fn-expr", "method", "getter", "class"]:
+        lines = []
+        for ik, itxt in inner.items():
+            for an, atxt in after.items():
+                lines.append(f"{ptxt}\nconst r = [{container(ck, itxt)}{atxt}];")
+        for j, l in enumerate(lines):
+            w(f"pending/p{pn}-{ck}-{j:02d}.jsx", l)
+            open(os.path.join(root, f"pending/p{pn}-{ck}-{j:02d}.only-own"), "w").write("")
+w("pending/arrow-expr-body-after-two.jsx", "const a = <A>{t('a')}</A>;\nconst b = <B>{t('b')}</B>;\nconst render = () => <List>{items.map(item => { return <Item>{format(item)}</Item>; })}</List>;")
+w("pending/object-literal-with-method.jsx", "dialog.create({ title: <Title>{t('title')}</Title>, onOk() { return items.map(item => item.id) } });")
+# Q2 (S43) the same directive spelling on a component in one module and on a plain element in its sibling
+spell = ["v-model:value_trim", "v-model_lazy_number", "vModel:foo_bar", "v-custom:arg_m1_m2", "v-model:value_trim_lazy", "v-show_x", "v-models={[[x, 'value_trim'], [y, 'foo_a_b']]}"]
+def use(host, close):
+    return "\n".join(f"const d{i} = <{host} {sp if '=' in sp else sp + '={x}'} {close}" for i, sp in enumerate(spell))
+w("names-clash/dirs-on-comp.jsx", use("Comp", "/>"))
+w("names-clash/dirs-on-elem.jsx", use("input", "/>"))
+w("names-clash/dirs-on-custom.jsx", use("x-foo", "></x-foo>"), '{"optimize":true,"customElementPatterns":["^x-"]}')
+w("names-clash/dirs-on-member.jsx", use("A.b", "/>"))
+# Q3 (S44) Unicode WHITESPACE at the edges of lines that get trimmed, and everywhere else
+ws = [" ", "　", " ", " ", " ", "﻿", "​", " ", "\u0085", "&nbsp;", "&#160;", "&#x3000;", "&ensp;"]
+w("unicode/whitespace.jsx", "\n".join(
+    [f"const a{i} = <p>\n  Price:\n  {c}42 EUR\n</p>;" for i, c in enumerate(ws)]
+    + [f"const b{i} = <p>Total{c}\n  next{c}\n  last</p>;" for i, c in enumerate(ws)]
+    + [f"const c{i} = <p>{c}\n{c}x{c}\n{c}</p>;" for i, c in enumerate(ws)]
+    + [f"const d{i} = <p title=\"{c}two\n{c}lines{c}\n  x\">{c}</p>;" for i, c in enumerate(ws) if not c.startswith('&#x')]))
+# Q4 (S34) non-ASCII and empty keys in listener objects and spreads
+w("unicode/listener-keys.jsx", "\n".join(
+    ["const a = <div on={{ 'événement': h, été: g, '': f, 日本: e, 'ß': d, click: c }} />;", "const b = <Comp nativeOn={{ 'é': h, '': g }} on={{ 'Ünï': f }} />;",
+     "const c = <div {...{ 'é': 1, '': 2, 日本: 3 }} on={{ [k]: h, 'x-é': g }} />;", "const d = <div on={{ é() {}, get ü() { return f }, '😀': g }} onÉ={h} on-é={g} />;"]),
+  '{"transformOn":true,"optimize":true}')
+
+# ---- R. (after S61) generic setup functions: type parameters whose constraints / defaults refer to each other
+gp = ["T extends string", "T extends T", "T = T", "T extends U, U extends T", "T extends U, U extends V, V extends U", "T extends U, U extends U", "T = U, U = V, V = T", "T extends U = V, U extends V, V",
+      "T extends { a: T }", "T extends keyof U, U extends Record<string, T>", "T extends Props, U extends T['a']", "T extends Array<T>", "const T extends readonly unknown[]", "T, U = T, V = U", "in out T"]
+lines = ["interface Props { a: string; b?: number }", "type Ev = { (e: 'x'): void };"]
+for i, g in enumerate(gp):
+    lines.append(f"const A{i} = defineComponent(<{g},>(props: T) => {{}});")
+    lines.append(f"const B{i} = defineComponent(<{g},>(props: {{ value: T; list: T[]; pick: Pick<Props, 'a'> }}, ctx: SetupContext<T>) => () => <div>{{props.value}}</div>);")
+    lines.append(f"const C{i} = defineComponent(function <{g}>(props: Partial<T> & Props, {{ emit }}: SetupContext<Ev>) {{}});")
+w("types-cyc/generic-params.tsx", hdr + "\n".join(l for l in lines if "in out" not in l and "const T" not in l), '{"resolveType":true,"optimize":true}')
+for i, g in enumerate(gp):
+    if "in out" in g: continue
+    w(f"types-cyc/generic-param-{i:02d}.tsx", hdr + f"interface Props {{ a: string }}\nconst A = defineComponent(<{g},>(props: T, ctx: SetupContext<T>) => {{}});\nconst B = defineComponent(function <{g}>(props: {{ v: T }}) {{}});", '{"resolveType":true,"optimize":true}')
+
+# ---- S. (after S64) self- and mutually-referential VALUE bindings (they parse; they would only throw when executed),
+# and long chains of them, used wherever the pass looks at an expression: attribute values, children, spreads,
+# directive values, defaults, slots objects
+cyc = {
+    "self": "const a = a;", "self-array": "const a = [a];", "self-object": "const theme = { theme, dark: true };", "mutual": "const a = [b];\nconst b = [a];",
+    "mutual-objects": "const a = { b };\nconst b = { a, c: 1 };", "three": "const a = b;\nconst b = c;\nconst c = a;", "through-fn": "const a = () => b;\nconst b = () => a;",
+    "let-var": "let a = [b];\nvar b = [a];", "exported": "export const a = [b];\nexport const b = { a };", "tail-into-cycle": "const t = [u];\nconst u = [v];\nconst v = [u];",
+    "chain-300": "const c0 = 'x';\n" + "\n".join(f"const c{i} = [c{i-1}];" for i in range(1, 300)) + "\nconst a = c299, b = c299;",
+    "chain-20000": "const c0 = 'x';\n" + "\n".join(f"const c{i} = [c{i-1}];" for i in range(1, 20000)) + "\nconst a = c19999, b = c19999;",
+}
+uses = "\n".join(["const u1 = <div id={a} title={b} />;", "const u2 = <Comp p={a} {...b} q={[a, { b }]}>{a}{b}</Comp>;", "const u3 = <div v-show={a} v-custom={[a, b]} class={a} style={b} key={a} ref={b} />;",
+                  "const u4 = <Comp v-slots={a}>{b}</Comp>;", "const u5 = <input v-model={a} type={b} />;", "a2 = <Comp>{a}</Comp>;"])
+for n, decl in cyc.items():
+    w(f"const-cyc/{n}.jsx", decl + "\n" + uses)
+    if n == "chain-20000":
+        open(os.path.join(root, "const-cyc/chain-20000.only-own"), "w").write("")
+
+# ---- T. (after S65) types whose expansion is a PRODUCT: template literal types with several placeholders that are
+# unions, in key / event-name / index position; products of unions through nested Pick / mapped keys
+ten = " | ".join(f"'k{i}'" for i in range(10))
+w("types/tpl-keys.tsx", hdr + "\n".join([
+    f"type Ten = {ten};", "type Two = 'a' | 'b';", "type All = { [K in `${Two}-${Two}`]: string } & { 'a-a': 1; 'on-foo': 2; x: 3 };",
+    "const A = defineComponent((p: Pick<All, `${Two}-${Two}`>) => {});", "const B = defineComponent((p: Omit<All, `on-${'foo' | 'bar'}`>) => {});",
+    "const C = defineComponent((p: { v: All[`${Two}-a`] }, c: SetupContext<(e: `update:${Two}` | 'close') => void>) => {});",
+    "const D = defineComponent((p: Pick<All, `${Ten}${Ten}${Ten}${Ten}${Ten}${Ten}${Ten}${Ten}${Ten}`>) => {});",
+    "const E = defineComponent((p: {}, c: SetupContext<{ (e: `${Ten}:${Ten}:${Ten}:${Ten}:${Ten}:${Ten}:${Ten}:${Ten}:${Ten}:${Ten}`): void }>) => {});",
+    "const F = defineComponent((p: { v: All[`${Ten}${Ten}${Ten}${Ten}${Ten}${Ten}${Ten}${Ten}${Ten}${Ten}`] }) => {});",
+    "type X = `${X}a`;", "const G = defineComponent((p: Pick<All, X>) => {});", "const H = defineComponent((p: Pick<All, `${string}-${number}`>) => {});",
+    "const I = defineComponent((p: Record<`${Ten}${Ten}${Ten}${Ten}${Ten}${Ten}${Ten}${Ten}${Ten}`, Ten>) => {});",
+    "const J = defineComponent((p: { [K in `${Ten}${Ten}${Ten}${Ten}${Ten}${Ten}${Ten}${Ten}${Ten}`]?: K }) => {});",
+]), '{"resolveType":true,"optimize":true}')
 print("generated under", os.path.normpath(root))
